@@ -72,9 +72,15 @@ func runModelCheck(r *simrt.Run, id string, o GenOpts) Outcome {
 	setCols := SetColsOf(prog)
 	want, wantH := refKeys(ref, setCols)
 	cfg := drawStoreCfg(r)
-	v := MakeVariant(r, prog, true, false)
+	// half of the runs present the program as generated (facts first, rules in
+	// order of definition), the other half renamed and with facts and rules in
+	// a drawn textual order: the least model does not depend on either
+	v := MakeVariant(r, prog, !r.Bool("model.presentation"), false)
 	res := EvalVariant(r, v, cfg, setCols)
-	desc := cfg.String()
+	desc := cfg.String() + " presentation: " + v.Desc
+	if v.Desc != "identity" {
+		src += "\nas presented to the engine:\n" + v.Prog.Source(true)
+	}
 	switch res.Stage {
 	case "panic":
 		return Violation(id+"/panic", "%s: panic %s\nprogram:\n%s", desc, res.Panic, src)
@@ -141,16 +147,27 @@ func runModelCheck(r *simrt.Run, id string, o GenOpts) Outcome {
 func runC20(r *simrt.Run, tier Tier) Outcome {
 	o := DrawOpts(r)
 	o.Aggregation, o.Lets = false, false
-	o.IDBFacts = false // both entry points take the base facts from the store
 	prog := GenProgram(r, o)
-	// rules only; base facts are preloaded into both stores
+	// rules, and the base facts of predicates that also have rules (the naive
+	// entry point accepts those only as unit clauses); the facts of purely
+	// extensional predicates are preloaded into both stores
 	p2 := *prog
 	p2.Facts = nil
+	var stored []Fact
+	for _, f := range prog.Facts {
+		if pi := prog.Pred(f.Pred); pi != nil && !pi.EDB {
+			p2.Facts = append(p2.Facts, f)
+			r.Probe("base-fact-of-derived-predicate")
+		} else {
+			stored = append(stored, f)
+		}
+	}
+	p2.Order = nil
 	p2.Preds = append([]PredInfo{}, prog.Preds...)
 	for i := range p2.Preds {
 		p2.Preds[i].Declared = false
 	}
-	src := p2.Source(false)
+	src := p2.Source(true)
 	full := prog.Source(true)
 	r.Logf("program:\n%s", full)
 	unit, err := parse.Unit(strings.NewReader(src))
@@ -165,7 +182,7 @@ func runC20(r *simrt.Run, tier Tier) Outcome {
 	seedA, seedB := uint64(r.Choose(1<<16, "c20.seedA")), uint64(r.Choose(1<<16, "c20.seedB"))
 	mkStore := func() factstore.SimpleInMemoryStore {
 		s := factstore.NewSimpleInMemoryStore()
-		for _, f := range prog.Facts {
+		for _, f := range stored {
 			s.Add(ToAtom(f))
 		}
 		return s
